@@ -4,7 +4,7 @@
    their stored coordinates.  [Jp d triples] / [Yp ps triples] are the design matrix [n ; s x n] and the right-hand side
    n.(t - s) of the property's linearised problem; unknowns (tau, omega). *)
 From Coq Require Import Reals List Arith Lia Lra Bool.
-From Romea Require Import Num NumR LinAlgBModel LinAlgBProofs LsModel LsProofs LsHistoryProofs P2pModel P2pProofs.
+From Romea Require Import Num NumR LinAlgBModel LinAlgBProofs LsModel LsProofs LsHistoryProofs P2pModel P2pProofs P2pSecondOrder.
 Import ListNotations.
 Local Open Scope R_scope.
 
@@ -95,14 +95,219 @@ Theorem C05_p2p_precond_invariant : forall n k (J : nat -> nat -> R) (Y : nat ->
 Proof. exact grad_scaled. Qed.
 Print Assumptions C05_p2p_precond_invariant.
 
-(* The O(theta^2) rotation error is NOT a theorem: it is measured by the oracle in the explicit form
-   |J (x - x_true)| <= theta^2/2 * sqrt(sum |s_i|^2) on exact-motion data (checks/C05.py).  What is proved about it is only
-   that the estimate is the minimiser of the linearised cost (above). *)
-Theorem C05_p2p_rotation_second_order_partial : forall n k J Y (z : nat -> R),
-  (forall y, cost n k J Y z <= cost n k J Y y) -> forall xtrue, cost n k J Y z <= cost n k J Y xtrue.
-Proof. exact (fun n k J Y z H xt => H xt). Qed.
-Print Assumptions C05_p2p_rotation_second_order_partial.
+(* ---------------- a rotation of angle theta is recovered with error O(theta^2) ----------------
+   Definitions used below (coq/P2pSecondOrder.v), points as coordinate functions [vget ROps p]:
+     rot2 t s         = [[cos t, -sin t],[sin t, cos t]] s
+     cross u v        = u x v,   rodrigues k t s = s + sin t (k x s) + (1 - cos t) (k x (k x s))   (rotation by t about k)
+     sq2 / sq3 / dot3 = squared norms and scalar product
+     xtrue2 tau theta = (tau_x, tau_y, theta),   xtrue3 tau k theta = (tau, theta k)   (the estimator's parameter order)
+     tsrc / ttgt / tnrm triples r = source / target / normal of correspondence r
+     same_w d ps s t  = Cartesian storage (ps = d) or homogeneous storage with equal last coordinate
+     exact_motion_2d theta tau ps triples  = every normal is a unit vector and target = rot2 theta source + tau
+     exact_motion_3d theta k tau ps triples = ... target = rodrigues k theta source + tau. *)
+
+(* analytic facts, every real t *)
+Theorem C05_rotation_remainder_analytic : forall t : R,
+  0 <= 1 - cos t <= t ^ 2 / 2 /\
+  (1 - cos t) ^ 2 + (t - sin t) ^ 2 = 2 - 2 * cos t - 2 * t * sin t + t ^ 2 /\
+  (1 - cos t) ^ 2 + (t - sin t) ^ 2 <= t ^ 4 / 4.
+Proof. exact rotation_remainder_analytic. Qed.
+Print Assumptions C05_rotation_remainder_analytic.
+
+(* rot2 and rodrigues are rotations: isometries, the axis is fixed, about e_z it is the planar rotation *)
+Theorem C05_rotations_are_rotations :
+  (forall t s, sq2 (rot2 t s) = sq2 s) /\
+  (forall k t s, sq3 k = 1 -> sq3 (rodrigues k t s) = sq3 s) /\
+  (forall k t, rodrigues k t k 0%nat = k 0%nat /\ rodrigues k t k 1%nat = k 1%nat /\ rodrigues k t k 2%nat = k 2%nat) /\
+  (forall t s, let ez := fun i => match i with 2%nat => 1 | _ => 0 end in
+     rodrigues ez t s 0%nat = rot2 t s 0%nat /\ rodrigues ez t s 1%nat = rot2 t s 1%nat /\ rodrigues ez t s 2%nat = s 2%nat).
+Proof. exact rotations_are_rotations. Qed.
+Print Assumptions C05_rotations_are_rotations.
+
+(* linearisation remainder, 2D: |((I + t [[0,-1],[1,0]]) - R(t)) s|^2 = ((1 - cos t)^2 + (t - sin t)^2) |s|^2 <= t^4/4 |s|^2 *)
+Theorem C05_rotation_remainder_2d : forall (t : R) (s : nat -> R),
+  sq2 (fun i => match i with O => s 0%nat - t * s 1%nat | _ => s 1%nat + t * s 0%nat end - rot2 t s i)
+    = ((1 - cos t) ^ 2 + (t - sin t) ^ 2) * sq2 s /\
+  sq2 (fun i => match i with O => s 0%nat - t * s 1%nat | _ => s 1%nat + t * s 0%nat end - rot2 t s i)
+    <= t ^ 4 / 4 * sq2 s.
+Proof. exact rot2_remainder. Qed.
+Print Assumptions C05_rotation_remainder_2d.
+
+(* linearisation remainder, 3D, unit axis k: |(I + t K - R) s|^2 = ((1 - cos t)^2 + (t - sin t)^2) (|s|^2 - (k.s)^2) <= t^4/4 |s|^2 *)
+Theorem C05_rotation_remainder_3d : forall (k : nat -> R) (t : R) (s : nat -> R), sq3 k = 1 ->
+  sq3 (fun i => s i + t * cross k s i - rodrigues k t s i)
+    = ((1 - cos t) ^ 2 + (t - sin t) ^ 2) * (sq3 s - dot3 k s ^ 2) /\
+  sq3 (fun i => s i + t * cross k s i - rodrigues k t s i) <= t ^ 4 / 4 * sq3 s.
+Proof. exact rodrigues_remainder. Qed.
+Print Assumptions C05_rotation_remainder_3d.
+
+(* one correspondence of exact-motion data: the linearised residual of the TRUE parameters, squared, is at most
+   theta^4/4 |s|^2  (Cauchy-Schwarz with |n| = 1) *)
+Theorem C05_p2p_true_residual_2d : forall theta tau ps (s t n : list R),
+  sq2 (vget ROps n) = 1 -> same_w 2 ps s t ->
+  (forall c, (c < 2)%nat -> vget ROps t c = rot2 theta (vget ROps s) c + tau c) ->
+  (Rsum 3 (fun c => vget ROps (p2p_row ROps 2 s n) c * xtrue2 tau theta c) - p2p_y ROps ps s t n) *
+  (Rsum 3 (fun c => vget ROps (p2p_row ROps 2 s n) c * xtrue2 tau theta c) - p2p_y ROps ps s t n)
+  <= theta ^ 4 / 4 * sq2 (vget ROps s).
+Proof. exact p2p_true_residual_2d. Qed.
+Print Assumptions C05_p2p_true_residual_2d.
+
+Theorem C05_p2p_true_residual_3d : forall theta tau k ps (s t n : list R),
+  sq3 (vget ROps n) = 1 -> sq3 k = 1 -> same_w 3 ps s t ->
+  (forall c, (c < 3)%nat -> vget ROps t c = rodrigues k theta (vget ROps s) c + tau c) ->
+  (Rsum 6 (fun c => vget ROps (p2p_row ROps 3 s n) c * xtrue3 tau k theta c) - p2p_y ROps ps s t n) *
+  (Rsum 6 (fun c => vget ROps (p2p_row ROps 3 s n) c * xtrue3 tau k theta c) - p2p_y ROps ps s t n)
+  <= theta ^ 4 / 4 * sq3 (vget ROps s).
+Proof. exact p2p_true_residual_3d. Qed.
+Print Assumptions C05_p2p_true_residual_3d.
+
+(* abstract least squares: for ANY solution z of the normal equations, cost x = cost z + |J (z - x)|^2 *)
+Theorem C05_pythagoras_from_normal_equations : forall n k J Y (z : nat -> R),
+  (forall i, (i < k)%nat -> grad n k J Y z i = 0) ->
+  forall x, cost n k J Y x = cost n k J Y z + Jerr2 n k J z x.
+Proof. exact pythagoras_normal. Qed.
+Print Assumptions C05_pythagoras_from_normal_equations.
+
+(* THE SECOND-ORDER BOUND: exact-motion data, z any solution of the normal equations of the model's linearised problem
+   (the estimate is one: C05_p2p_normal_equations_and_minimiser):  |J (z - x_true)|^2 <= theta^4/4 sum_i |s_i|^2 *)
+Theorem C05_p2p_rotation_second_order_2d : forall theta tau ps triples (z : nat -> R),
+  exact_motion_2d theta tau ps triples ->
+  (forall i, (i < 3)%nat -> grad (length triples) 3 (Jp 2 triples) (Yp ps triples) z i = 0) ->
+  Rsum (length triples) (fun r => (Rsum 3 (fun a => Jp 2 triples r a * (z a - xtrue2 tau theta a))) ^ 2)
+  <= theta ^ 4 / 4 * Rsum (length triples) (fun r => sq2 (vget ROps (tsrc triples r))).
+Proof. exact p2p_rotation_second_order_2d. Qed.
+Print Assumptions C05_p2p_rotation_second_order_2d.
+
+Theorem C05_p2p_rotation_second_order_3d : forall theta k tau ps triples (z : nat -> R),
+  sq3 k = 1 -> exact_motion_3d theta k tau ps triples ->
+  (forall i, (i < 6)%nat -> grad (length triples) 6 (Jp 3 triples) (Yp ps triples) z i = 0) ->
+  Rsum (length triples) (fun r => (Rsum 6 (fun a => Jp 3 triples r a * (z a - xtrue3 tau k theta a))) ^ 2)
+  <= theta ^ 4 / 4 * Rsum (length triples) (fun r => sq3 (vget ROps (tsrc triples r))).
+Proof. exact p2p_rotation_second_order_3d. Qed.
+Print Assumptions C05_p2p_rotation_second_order_3d.
+
+(* the same in the form the oracle measures: |J (z - x_true)| <= theta^2/2 sqrt(sum_i |s_i|^2) *)
+Theorem C05_p2p_rotation_second_order_sqrt_2d : forall theta tau ps triples (z : nat -> R),
+  exact_motion_2d theta tau ps triples ->
+  (forall i, (i < 3)%nat -> grad (length triples) 3 (Jp 2 triples) (Yp ps triples) z i = 0) ->
+  sqrt (Rsum (length triples) (fun r => (Rsum 3 (fun a => Jp 2 triples r a * (z a - xtrue2 tau theta a))) ^ 2))
+  <= theta ^ 2 / 2 * sqrt (Rsum (length triples) (fun r => sq2 (vget ROps (tsrc triples r)))).
+Proof. exact p2p_rotation_second_order_sqrt_2d. Qed.
+Print Assumptions C05_p2p_rotation_second_order_sqrt_2d.
+
+Theorem C05_p2p_rotation_second_order_sqrt_3d : forall theta k tau ps triples (z : nat -> R),
+  sq3 k = 1 -> exact_motion_3d theta k tau ps triples ->
+  (forall i, (i < 6)%nat -> grad (length triples) 6 (Jp 3 triples) (Yp ps triples) z i = 0) ->
+  sqrt (Rsum (length triples) (fun r => (Rsum 6 (fun a => Jp 3 triples r a * (z a - xtrue3 tau k theta a))) ^ 2))
+  <= theta ^ 2 / 2 * sqrt (Rsum (length triples) (fun r => sq3 (vget ROps (tsrc triples r)))).
+Proof. exact p2p_rotation_second_order_sqrt_3d. Qed.
+Print Assumptions C05_p2p_rotation_second_order_sqrt_3d.
+
+(* parameter error: with lam > 0 a lower bound of the spectrum of J^T J (lam |v|^2 <= |J v|^2 for every v),
+   |z - x_true|^2 <= theta^4/(4 lam) sum_i |s_i|^2 *)
+Theorem C05_p2p_rotation_param_error_2d : forall theta tau ps triples (z : nat -> R) lam,
+  exact_motion_2d theta tau ps triples ->
+  (forall i, (i < 3)%nat -> grad (length triples) 3 (Jp 2 triples) (Yp ps triples) z i = 0) ->
+  0 < lam ->
+  (forall v : nat -> R, lam * Rsum 3 (fun a => v a * v a) <=
+                        Rsum (length triples) (fun r => Jx 3 (Jp 2 triples) v r * Jx 3 (Jp 2 triples) v r)) ->
+  Rsum 3 (fun a => (z a - xtrue2 tau theta a) * (z a - xtrue2 tau theta a))
+  <= theta ^ 4 / 4 * Rsum (length triples) (fun r => sq2 (vget ROps (tsrc triples r))) / lam.
+Proof. exact p2p_rotation_param_error_2d. Qed.
+Print Assumptions C05_p2p_rotation_param_error_2d.
+
+Theorem C05_p2p_rotation_param_error_3d : forall theta k tau ps triples (z : nat -> R) lam,
+  sq3 k = 1 -> exact_motion_3d theta k tau ps triples ->
+  (forall i, (i < 6)%nat -> grad (length triples) 6 (Jp 3 triples) (Yp ps triples) z i = 0) ->
+  0 < lam ->
+  (forall v : nat -> R, lam * Rsum 6 (fun a => v a * v a) <=
+                        Rsum (length triples) (fun r => Jx 6 (Jp 3 triples) v r * Jx 6 (Jp 3 triples) v r)) ->
+  Rsum 6 (fun a => (z a - xtrue3 tau k theta a) * (z a - xtrue3 tau k theta a))
+  <= theta ^ 4 / 4 * Rsum (length triples) (fun r => sq3 (vget ROps (tsrc triples r))) / lam.
+Proof. exact p2p_rotation_param_error_3d. Qed.
+Print Assumptions C05_p2p_rotation_param_error_3d.
+
+(* end to end, the modelled estimator from ANY ready state: H = scatter x, x = Ac z + Bc, and z obeys the bound
+   (SVD contract, all singular values above the relative threshold, as in C05_p2p_normal_equations_and_minimiser) *)
+Theorem C05_p2p_estimate_rotation_second_order_2d :
+  forall inverse_of svd_of (fill : R) ps triples (st st2 : ls_state (T:=R)) (H : list (list R)) theta tau,
+  ready 3%nat st -> (1 <= length triples)%nat -> exact_motion_2d theta tau ps triples ->
+  p2p_estimate ROps inverse_of svd_of fill true 2 ps triples st = Some (st2, H) ->
+  exists st1 x,
+    p2p_load ROps inverse_of svd_of fill true 2 ps triples st = Some st1 /\
+    ls_estimate_svd ROps svd_of st1 = Some (st2, x) /\ H = p2p_scatter ROps 2 x /\
+    (svd_contract 3%nat (ls_JtJ ROps st1) (svd_of 3%nat (ls_JtJ ROps st1)) -> svd_all_above svd_of st1 ->
+     let n := length triples in
+     let z := ls_z st1 (svd_pinv ROps 3%nat (svd_thr svd_of st1) (svd_of 3%nat (ls_JtJ ROps st1))) in
+     (forall i, (i < 3)%nat -> vget ROps x i = Rsum 3 (fun l => mget ROps (ls_A st) i l * z l) + vget ROps (ls_b st) i) /\
+     Rsum n (fun r => (Rsum 3 (fun a => Jp 2 triples r a * (z a - xtrue2 tau theta a))) ^ 2)
+     <= theta ^ 4 / 4 * Rsum n (fun r => sq2 (vget ROps (tsrc triples r)))).
+Proof. exact p2p_estimate_rotation_second_order_2d. Qed.
+Print Assumptions C05_p2p_estimate_rotation_second_order_2d.
+
+Theorem C05_p2p_estimate_rotation_second_order_3d :
+  forall inverse_of svd_of (fill : R) ps triples (st st2 : ls_state (T:=R)) (H : list (list R)) theta k tau,
+  ready 6%nat st -> (1 <= length triples)%nat -> sq3 k = 1 -> exact_motion_3d theta k tau ps triples ->
+  p2p_estimate ROps inverse_of svd_of fill true 3 ps triples st = Some (st2, H) ->
+  exists st1 x,
+    p2p_load ROps inverse_of svd_of fill true 3 ps triples st = Some st1 /\
+    ls_estimate_svd ROps svd_of st1 = Some (st2, x) /\ H = p2p_scatter ROps 3 x /\
+    (svd_contract 6%nat (ls_JtJ ROps st1) (svd_of 6%nat (ls_JtJ ROps st1)) -> svd_all_above svd_of st1 ->
+     let n := length triples in
+     let z := ls_z st1 (svd_pinv ROps 6%nat (svd_thr svd_of st1) (svd_of 6%nat (ls_JtJ ROps st1))) in
+     (forall i, (i < 6)%nat -> vget ROps x i = Rsum 6 (fun l => mget ROps (ls_A st) i l * z l) + vget ROps (ls_b st) i) /\
+     Rsum n (fun r => (Rsum 6 (fun a => Jp 3 triples r a * (z a - xtrue3 tau k theta a))) ^ 2)
+     <= theta ^ 4 / 4 * Rsum n (fun r => sq3 (vget ROps (tsrc triples r)))).
+Proof. exact p2p_estimate_rotation_second_order_3d. Qed.
+Print Assumptions C05_p2p_estimate_rotation_second_order_3d.
+
+(* a freshly constructed estimator (Ac = I, Bc = 0): the bound holds for the returned parameters x themselves *)
+Theorem C05_p2p_fresh_rotation_second_order_2d :
+  forall inverse_of svd_of (fill : R) ps triples (st2 : ls_state (T:=R)) (H : list (list R)) theta tau,
+  (1 <= length triples)%nat -> exact_motion_2d theta tau ps triples ->
+  p2p_estimate ROps inverse_of svd_of fill true 2 ps triples (p2p_new ROps 2) = Some (st2, H) ->
+  exists st1 x,
+    p2p_load ROps inverse_of svd_of fill true 2 ps triples (p2p_new ROps 2) = Some st1 /\ H = p2p_scatter ROps 2 x /\
+    (svd_contract 3%nat (ls_JtJ ROps st1) (svd_of 3%nat (ls_JtJ ROps st1)) -> svd_all_above svd_of st1 ->
+     let n := length triples in
+     Rsum n (fun r => (Rsum 3 (fun a => Jp 2 triples r a * (vget ROps x a - xtrue2 tau theta a))) ^ 2)
+     <= theta ^ 4 / 4 * Rsum n (fun r => sq2 (vget ROps (tsrc triples r)))).
+Proof. exact p2p_fresh_rotation_second_order_2d. Qed.
+Print Assumptions C05_p2p_fresh_rotation_second_order_2d.
+
+Theorem C05_p2p_fresh_rotation_second_order_3d :
+  forall inverse_of svd_of (fill : R) ps triples (st2 : ls_state (T:=R)) (H : list (list R)) theta k tau,
+  (1 <= length triples)%nat -> sq3 k = 1 -> exact_motion_3d theta k tau ps triples ->
+  p2p_estimate ROps inverse_of svd_of fill true 3 ps triples (p2p_new ROps 3) = Some (st2, H) ->
+  exists st1 x,
+    p2p_load ROps inverse_of svd_of fill true 3 ps triples (p2p_new ROps 3) = Some st1 /\ H = p2p_scatter ROps 3 x /\
+    (svd_contract 6%nat (ls_JtJ ROps st1) (svd_of 6%nat (ls_JtJ ROps st1)) -> svd_all_above svd_of st1 ->
+     let n := length triples in
+     Rsum n (fun r => (Rsum 6 (fun a => Jp 3 triples r a * (vget ROps x a - xtrue3 tau k theta a))) ^ 2)
+     <= theta ^ 4 / 4 * Rsum n (fun r => sq3 (vget ROps (tsrc triples r)))).
+Proof. exact p2p_fresh_rotation_second_order_3d. Qed.
+Print Assumptions C05_p2p_fresh_rotation_second_order_3d.
 
 (* ---- non-vacuity: a fresh estimator is ready, in 2D and 3D ---- *)
 Example C05_fresh_estimator_ready : ready (p2p_k 2) (p2p_new ROps 2) /\ ready (p2p_k 3) (p2p_new ROps 3).
 Proof. split; (split; [repeat split; cbn; auto|]); cbn; auto. Qed.
+
+(* ---- non-vacuity of the exact-motion hypotheses (every angle theta), 2D with translation (3,-2), 3D about e_z;
+        and, for the 2D data, a solution of the normal equations exists (zero-residual z) ---- *)
+Example C05_exact_motion_2d_satisfiable : forall theta,
+  exact_motion_2d theta (fun c => match c with O => 3 | _ => -2 end) 2
+    [(([1; 0], [cos theta + 3; sin theta - 2]), [0; 1]); (([0; 2], [- (2 * sin theta) + 3; 2 * cos theta - 2]), [1; 0])].
+Proof. exact exact_motion_2d_example. Qed.
+
+Example C05_exact_motion_2d_normal_equations_satisfiable : forall theta,
+  let triples := [(([1; 0], [cos theta + 3; sin theta - 2]), [0; 1]);
+                  (([0; 2], [- (2 * sin theta) + 3; 2 * cos theta - 2]), [1; 0])] in
+  let z := fun c => match c with O => 3 - 2 * sin theta | S O => sin theta - 2 | _ => 0 end in
+  forall i, (i < 3)%nat -> grad (length triples) 3 (Jp 2 triples) (Yp 2 triples) z i = 0.
+Proof. exact exact_motion_2d_example_normal. Qed.
+
+Example C05_exact_motion_3d_satisfiable : forall theta,
+  let ez := fun i => match i with 2%nat => 1 | _ => 0 end in
+  sq3 ez = 1 /\
+  exact_motion_3d theta ez (fun _ => 0) 3 [(([1; 0; 5], [cos theta; sin theta; 5]), [0; 1; 0])].
+Proof. exact exact_motion_3d_example. Qed.
